@@ -82,7 +82,10 @@ def make_texts(rng):
         # a long chain of binary operators: a deep (left-leaning) expression tree
         n = rng.choice([150, 250, 300, 350])
         out.append(("model Deep%d\n  Real x;\nequation\n  x = %s;\nend Deep%d;\n" % (n, " + ".join(str(rng.randint(1, 9)) for _ in range(n)), n), True))
-    valid = [t for t, _ in out if not t.startswith("model Deep")]
+    if rng.random() < 0.1:
+        # a description string with a lone surrogate: what reading a Latin-1 file with errors="surrogateescape" gives
+        out.append(('model Esc%d "caf\udce9 %d"\n  Real x;\nequation\n  x = %d;\nend Esc%d;\n' % (len(out), rng.randint(0, 99), rng.randint(1, 9), len(out)), True))
+    valid = [t for t, _ in out if not t.startswith(("model Deep", "model Esc"))]
     for i in range(rng.randint(1, 2)):
         t = rng.choice(valid)
         kind = rng.choice(["drop-semicolon", "unbalanced-end", "stray-character", "trailing-garbage"])
@@ -115,7 +118,7 @@ def deep_digest(tree):
 
 
 def txt_hash(t):
-    return hashlib.sha256(t.encode("utf-8")).hexdigest()
+    return hashlib.sha256(t.encode("utf-8", "surrogatepass")).hexdigest()
 
 
 class World:
@@ -138,6 +141,8 @@ class World:
         self.texts = usable
         if any(t.startswith("model Deep") for t, _ in usable):
             ctx.cover("text:deep-expression-chain")
+        if any(t.startswith("model Esc") for t, _ in usable):
+            ctx.cover("text:lone-surrogate-in-a-string")
         for t, ok in self.texts:
             ctx.cover("text:valid" if ok else "text:syntax-error")
         self.clock = Clock()
@@ -546,7 +551,7 @@ def run_history(ctx, rng, k, ext, script=None):
         pymoca.__version__ = saved_version
         shutil.rmtree(folder, ignore_errors=True)
     nt = w.fault_count + sum(1 for o in w.ops if o[0] in ("set-version", "advance-clock")) >= 1 and w.reparse_count >= 2
-    ctx.case({"ops": w.ops, "texts": [hashlib.sha256(t.encode()).hexdigest()[:8] for t, _ in w.texts]}, nt,
+    ctx.case({"ops": w.ops, "texts": [hashlib.sha256(t.encode("utf-8", "surrogatepass")).hexdigest()[:8] for t, _ in w.texts]}, nt,
              {"history": w.ops, "n_texts": len(w.texts)} if k < 2 else None)
     if bad:
         feat = ext or "core"
